@@ -70,6 +70,9 @@ var targets = []target{
 	{"oauthproxy.go", "isAllowedPath", "", ""},
 	{"oauthproxy.go", "isAllowedRoute", "OAuthProxy", "allowedRoutes:routes"},
 	{"pkg/app/redirect/validator.go", "IsValidRedirect", "validator", "allowedDomains:strs"},
+	{"oauthproxy.go", "extractAllowedEntities", "", ""},
+	{"oauthproxy.go", "checkAllowedGroups", "", ""},
+	{"oauthproxy.go", "checkAllowedEmails", "", ""},
 	{"pkg/ip/realclientip.go", "GetRealClientIP", "xForwardedForClientIPParser", "header:str"},
 	{"pkg/ip/realclientip.go", "getRemoteIP", "", ""},
 	{"pkg/cookies/csrf.go", "ExtractStateSubstring", "", ""},
@@ -100,6 +103,9 @@ const (
 	kHCookie = "httpcookie"
 	kIP      = "ip"
 	kHeader  = "header"
+	kSet     = "set"
+	kQuery   = "queryvals"
+	kSess    = "session"
 	kAny     = "?"
 )
 
@@ -147,6 +153,12 @@ func leanOfKind(k string) string {
 		return "Option Go.IP"
 	case kHeader:
 		return "Str → Str"
+	case kSet:
+		return "List Str"
+	case kQuery:
+		return "Str → List Str"
+	case kSess:
+		return "Go.Session"
 	}
 	panic("no Lean type for kind " + k)
 }
@@ -192,6 +204,12 @@ func exprString(e ast.Expr) string {
 		return "..." + exprString(x.Elt)
 	case *ast.FuncType:
 		return "func"
+	case *ast.MapType:
+		return "map[" + exprString(x.Key) + "]" + exprString(x.Value)
+	case *ast.StructType:
+		return "struct{}"
+	case *ast.CompositeLit:
+		return exprString(x.Type) + "{}"
 	case *ast.CallExpr:
 		return exprString(x.Fun) + "()"
 	case *ast.BasicLit:
@@ -234,6 +252,10 @@ func kindOfType(t ast.Expr) string {
 		return kIP
 	case "http.Header":
 		return kHeader
+	case "map[string]struct{}":
+		return kSet
+	case "*sessionsapi.SessionState":
+		return kSess
 	case "func":
 		return kUnit
 	}
@@ -256,6 +278,7 @@ type tr struct {
 	named      []string // named results
 	results    []string
 	loopRet    int               // >0 inside a forRange body
+	breakFlag  []string          // per enclosing loop: the carried flag that encodes `break` ("" if the loop has none)
 	recvFields map[string]string // "recv.field" -> kind
 	mutable    map[string]bool   // variables that are assigned after their declaration
 	loopSt     []string          // "" for a stateless loop body, else the Lean tuple of the loop-carried variables
@@ -369,6 +392,9 @@ func (t *tr) expr(e ast.Expr) (string, string) {
 	case *ast.IndexExpr:
 		c, k := t.expr(x.X)
 		i, _ := t.expr(x.Index)
+		if k == kQuery {
+			return "(" + c + " " + atom(i) + ")", kStrs // a missing key is the nil slice
+		}
 		ek := kAny
 		switch k {
 		case kStr:
@@ -430,6 +456,10 @@ func (t *tr) expr(e ast.Expr) (string, string) {
 					return ident(id.Name) + ".method", kStr
 				case "req.RemoteAddr":
 					return ident(id.Name) + ".remoteAddr", kStr
+				case "session.Email":
+					return ident(id.Name) + ".Email", kStr
+				case "session.Groups":
+					return ident(id.Name) + ".Groups", kStrs
 				case "route.method":
 					return ident(id.Name) + ".method", kStr
 				case "route.negate":
@@ -462,6 +492,9 @@ func (t *tr) expr(e ast.Expr) (string, string) {
 		fail("selector %s", full)
 	case *ast.CompositeLit:
 		k := kindOfType(x.Type)
+		if k == kSet && len(x.Elts) == 0 {
+			return "([] : List Str)", kSet
+		}
 		if k != kInts && k != kStrs {
 			fail("composite literal of %s", exprString(x.Type))
 		}
@@ -618,7 +651,10 @@ func (t *tr) call(x *ast.CallExpr) (string, string) {
 		c, _ := t.expr(x.Args[0])
 		return c, kInt
 	case "len":
-		c, _ := t.expr(x.Args[0])
+		c, k := t.expr(x.Args[0])
+		if k == kSet {
+			return "(Go.setLen " + atom(c) + ")", kInt
+		}
 		return "(Go.len " + atom(c) + ")", kInt
 	}
 	a := func() []string { return t.args(x.Args) }
@@ -690,6 +726,8 @@ func (t *tr) call(x *ast.CallExpr) (string, string) {
 					return "(" + ident(id.Name) + ".header " + a()[0] + ")", kStr
 				case "URL.RequestURI":
 					return ident(id.Name) + ".requestURI", kStr
+				case "URL.Query":
+					return ident(id.Name) + ".query", kQuery
 				}
 			}
 		}
@@ -891,7 +929,7 @@ func endsInReturn(stmts []ast.Stmt) bool {
 	case *ast.ReturnStmt:
 		return true
 	case *ast.BranchStmt:
-		return s.Tok == token.CONTINUE
+		return s.Tok == token.CONTINUE || s.Tok == token.BREAK
 	}
 	return false
 }
@@ -912,6 +950,30 @@ func (t *tr) stmt(o *out, ind int, s ast.Stmt) {
 								o.add(ind, t.letKw([]string{e.Name})+" "+ident(e.Name)+" : Go.Err := none")
 							}
 						}
+						return
+					}
+				}
+			}
+		}
+		// m[k] = struct{}{} on a set; _, ok := m[k]
+		if len(x.Lhs) == 1 && len(x.Rhs) == 1 && x.Tok == token.ASSIGN {
+			if ix, ok := x.Lhs[0].(*ast.IndexExpr); ok {
+				if id, ok := ix.X.(*ast.Ident); ok && t.kinds[id.Name] == kSet {
+					k, _ := t.expr(ix.Index)
+					o.add(ind, ident(id.Name)+" := Go.setInsert "+ident(id.Name)+" "+atom(k))
+					return
+				}
+			}
+		}
+		if len(x.Lhs) == 2 && len(x.Rhs) == 1 && x.Tok == token.DEFINE {
+			if ix, ok := x.Rhs[0].(*ast.IndexExpr); ok {
+				if id, ok := ix.X.(*ast.Ident); ok && t.kinds[id.Name] == kSet {
+					l0, ok0 := x.Lhs[0].(*ast.Ident)
+					l1, ok1 := x.Lhs[1].(*ast.Ident)
+					if ok0 && ok1 && l0.Name == "_" {
+						k, _ := t.expr(ix.Index)
+						t.kinds[l1.Name] = kBool
+						o.add(ind, t.letKw([]string{l1.Name})+" "+ident(l1.Name)+" := Go.setHas "+ident(id.Name)+" "+atom(k))
 						return
 					}
 				}
@@ -1045,6 +1107,11 @@ func (t *tr) stmt(o *out, ind int, s ast.Stmt) {
 		}
 		o.add(ind, t.retValue(vs))
 	case *ast.BranchStmt:
+		if x.Tok == token.BREAK && t.loopRet > 0 && x.Label == nil && len(t.breakFlag) > 0 && t.breakFlag[len(t.breakFlag)-1] != "" {
+			o.add(ind, t.breakFlag[len(t.breakFlag)-1]+" := true")
+			o.add(ind, "return Sum.inr "+t.loopSt[len(t.loopSt)-1])
+			return
+		}
 		if x.Tok == token.CONTINUE && t.loopRet > 0 && x.Label == nil {
 			if st := t.loopSt[len(t.loopSt)-1]; st != "" {
 				o.add(ind, "return Sum.inr "+st)
@@ -1117,6 +1184,10 @@ func (t *tr) stmt(o *out, ind int, s ast.Stmt) {
 			o.add(cur, "pure ()")
 		}
 	case *ast.RangeStmt:
+		c, k := t.expr(x.X)
+		if k == kSet && x.Value == nil && x.Key != nil {
+			x = &ast.RangeStmt{Key: ast.NewIdent("_"), Value: x.Key, Tok: x.Tok, X: x.X, Body: x.Body} // `for k := range set`
+		}
 		if x.Key != nil {
 			if id, ok := x.Key.(*ast.Ident); !ok || id.Name != "_" {
 				fail("range with an index variable")
@@ -1126,7 +1197,6 @@ func (t *tr) stmt(o *out, ind int, s ast.Stmt) {
 		if !ok || x.Tok != token.DEFINE {
 			fail("range without a value variable")
 		}
-		c, k := t.expr(x.X)
 		ek := ""
 		switch k {
 		case kStr:
@@ -1137,10 +1207,26 @@ func (t *tr) stmt(o *out, ind int, s ast.Stmt) {
 			ek = kInt
 		case kRoutes:
 			ek = kRoute
+		case kSet:
+			ek = kStr
 		default:
 			fail("range over a value of kind %s", k)
 		}
 		carried := assignsOuter(x.Body, t.kinds)
+		breaks := hasBreak(x.Body)
+		if breaks {
+			// `break` = a carried flag: once set, the remaining iterations do nothing
+			t.tmp++
+			flag := fmt.Sprintf("brk%d", t.tmp)
+			t.kinds[flag] = kBool
+			t.mutable[flag] = true
+			o.add(ind, "let mut "+flag+" := false")
+			carried = append(carried, flag)
+			t.breakFlag = append(t.breakFlag, flag)
+		} else {
+			t.breakFlag = append(t.breakFlag, "")
+		}
+		defer func() { t.breakFlag = t.breakFlag[:len(t.breakFlag)-1] }()
 		saved := map[string]string{}
 		for k, v := range t.kinds {
 			saved[k] = v
@@ -1174,6 +1260,10 @@ func (t *tr) stmt(o *out, ind int, s ast.Stmt) {
 			}
 			o.add(ind, "match ← Go.forRangeS "+atom(c)+" "+st+" (fun "+ident(v.Name)+" st => do")
 			o.add(ind+2, "let mut "+st+" := st")
+			if breaks {
+				o.add(ind+2, "if "+t.breakFlag[len(t.breakFlag)-1]+" then")
+				o.add(ind+3, "return Sum.inr "+st)
+			}
 			t.loopRet++
 			t.loopSt = append(t.loopSt, st)
 			t.block(o, ind+2, x.Body.List)
@@ -1194,6 +1284,27 @@ func (t *tr) stmt(o *out, ind int, s ast.Stmt) {
 	}
 }
 
+// does the loop body contain a `break` of THIS loop (not of a nested loop or switch)?
+func hasBreak(b *ast.BlockStmt) bool {
+	found := false
+	var walk func(n ast.Node) bool
+	walk = func(n ast.Node) bool {
+		switch x := n.(type) {
+		case *ast.ForStmt, *ast.RangeStmt, *ast.SwitchStmt, *ast.TypeSwitchStmt, *ast.SelectStmt, *ast.FuncLit:
+			return false
+		case *ast.BranchStmt:
+			if x.Tok == token.BREAK && x.Label == nil {
+				found = true
+			}
+		}
+		return true
+	}
+	for _, st := range b.List {
+		ast.Inspect(st, walk)
+	}
+	return found
+}
+
 // the variables declared outside the loop body that it assigns (=, +=, ++, h.Write), sorted
 func assignsOuter(b *ast.BlockStmt, outer map[string]string) []string {
 	declared := map[string]bool{}
@@ -1212,6 +1323,9 @@ func assignsOuter(b *ast.BlockStmt, outer map[string]string) []string {
 		case *ast.AssignStmt:
 			for _, l := range x.Lhs {
 				mark(l, x.Tok == token.DEFINE)
+				if ix, ok := l.(*ast.IndexExpr); ok {
+					mark(ix.X, false)
+				}
 			}
 		case *ast.IncDecStmt:
 			mark(x.X, false)
@@ -1245,6 +1359,11 @@ func assignedNames(fd *ast.FuncDecl) map[string]bool {
 					}
 					if sel, ok := l.(*ast.SelectorExpr); ok {
 						if id, ok := sel.X.(*ast.Ident); ok {
+							m[id.Name] = true
+						}
+					}
+					if ix, ok := l.(*ast.IndexExpr); ok {
+						if id, ok := ix.X.(*ast.Ident); ok {
 							m[id.Name] = true
 						}
 					}
